@@ -144,7 +144,7 @@ type c19Sess struct {
 // end (how session A / the single session ends: 0 an environment task cancels it, enabled from
 // the start so that every cut point is reached; 1 cancel after the scripts have been served;
 // 2 the inbound channel is closed after the scripts have been served; 3 not at all: the execution
-// stops at the first quiescence).
+// stops at the first quiescence; 4 (two sessions) the sessions run one after the other).
 func PromSessions(h *vsched.H) {
 	mode, end := h.Param("mode", 1), h.Param("end", 1)
 	reg := prometheus.NewRegistry()
@@ -168,13 +168,33 @@ func PromSessions(h *vsched.H) {
 		desc = fmt.Sprintf("pair %d", h.Param("pair", 0))
 	}
 	var ss []*c19Sess
-	for i, sc := range scripts {
+	start := func(i int) *c19Sess {
 		s := &c19Sess{log: &c19Log{}}
 		s.c = NewConn(h, string(rune('A'+i)), context.WithValue(context.Background(), c19LogKey{}, s.log), hd)
 		ss = append(ss, s)
-		sc := sc
+		sc := scripts[i]
 		go c18Read(s.c)
 		go func() { c18Write(s.c, sc); s.wdone = true }()
+		return s
+	}
+	if mode == 2 && end == 4 {
+		// one after the other: session B starts only when session A (possibly with subscriptions still
+		// open) has ended - whatever the middleware keeps per session must not survive the session
+		unclaimed := 0
+		for i := range scripts {
+			s := start(i)
+			h.WaitQuiescent()
+			unclaimed += c19Check(h, reg, ss, desc, fmt.Sprintf("session %s served (sessions run one after the other)", s.c.Name))
+			s.c.CancelAt = 1
+			s.c.Cancel()
+			h.WaitQuiescent()
+			unclaimed += c19Check(h, reg, ss, desc, fmt.Sprintf("session %s ended (sessions run one after the other)", s.c.Name))
+		}
+		h.Observe(fmt.Sprintf("sequential, unclaimed %d", unclaimed))
+		return
+	}
+	for i := range scripts {
+		start(i)
 	}
 	A := ss[0]
 	if end == 0 {
